@@ -409,8 +409,9 @@ def kymoWindowUnfixed (x1 y1 x2 y2 w h : Int) : Except Err (Int × Int × Int ×
     else .ok (x1, x2 + 1, ymin, ymax)
 
 /-- the same after the repair of finding F20 (`/repo` commit "clamp the left edge of the tether window"):
-    `xmin = max(floor(x1), 0)`. -/
-def kymoWindow (x1 y1 x2 y2 w h : Int) : Except Err (Int × Int × Int × Int) :=
+    `xmin = max(floor(x1), 0)` — the code as pinned now.  A tether whose RIGHT end lies left of the (cropped) image too
+    still hands a negative `xmax` to `crop_by_pixels` (finding F20b, witness `F20b_witness`). -/
+def kymoWindowPinned (x1 y1 x2 y2 w h : Int) : Except Err (Int × Int × Int × Int) :=
   if y1 ≠ y2 then .error .value
   else if w < 0 then .error .value
   else
@@ -418,6 +419,17 @@ def kymoWindow (x1 y1 x2 y2 w h : Int) : Except Err (Int × Int × Int × Int) :
     let ymax := y2 + w + 1
     if ymin < 0 ∨ ymax > h then .error .value
     else .ok (max x1 0, x2 + 1, ymin, ymax)
+
+/-- the window with both ends kept from wrapping (`xmax = max(floor(x2) + 1, 0)`, proposed repair of F20b); identical to
+    `kymoWindowPinned` whenever the right tether end is not left of the image (`kymoWindow_eq_pinned`). -/
+def kymoWindow (x1 y1 x2 y2 w h : Int) : Except Err (Int × Int × Int × Int) :=
+  if y1 ≠ y2 then .error .value
+  else if w < 0 then .error .value
+  else
+    let ymin := y1 - w
+    let ymax := y2 + w + 1
+    if ymin < 0 ∨ ymax > h then .error .value
+    else .ok (max x1 0, max (x2 + 1) 0, ymin, ymax)
 
 /-- All consecutive differences equal the first one (`np.all(np.diff(x) == np.diff(x)[0])`). -/
 def constDiffs : List Int → Bool
@@ -441,6 +453,76 @@ def Stack.kymoStack (s : Stack) (x1 y1 x2 y2 w : Int) : Except Err Stack := do
 def Stack.kymoStackUnfixed (s : Stack) (x1 y1 x2 y2 w : Int) : Except Err Stack := do
   let (a, b, c, d) ← kymoWindowUnfixed x1 y1 x2 y2 w s.roi.height
   s.cropPixels (some a) (some b) (some c) (some d)
+
+/-- the code as pinned now (finding F20b): a negative `xmax` wraps around in `crop_by_pixels` -/
+def Stack.kymoStackPinned (s : Stack) (x1 y1 x2 y2 w : Int) : Except Err Stack := do
+  let (a, b, c, d) ← kymoWindowPinned x1 y1 x2 y2 w s.roi.height
+  s.cropPixels (some a) (some b) (some c) (some d)
+
+/-! ### kymograph content (`_kymo_from_image_stack` after the window has been cut) -/
+
+/-- The head of `_kymo_from_image_stack` on the exposure ranges `frame_timestamp_ranges()`, in the order of the code:
+    `line_time = np.diff(starts)[0]` (fewer than two frames: the undocumented `IndexError`), all differences equal to
+    it, `exp_time = (stops - starts)[0]`, all exposures equal to it, `start = starts[0]`.
+    Answers `(line_time, exposure, start)` in ns. -/
+def kymoTimes (ranges : List (Int × Int)) : Except Err (Int × Int × Int) :=
+  match ranges with
+  | a :: b :: _ =>
+    let lt := b.1 - a.1
+    if !((ranges.zip (ranges.drop 1)).all fun (x, y) => y.1 - x.1 == lt) then .error .value
+    else
+      let ex := a.2 - a.1
+      if !(ranges.all fun r => r.2 - r.1 == ex) then .error .value
+      else .ok (lt, ex, a.1)
+  | _ => .error .index
+
+def addRows (a b : List Int) : List Int := List.zipWith (· + ·) a b
+
+/-- `np.sum(window, axis=0)` of the rows of one frame's window: the rows are added up one after the other. -/
+def sumRows : List (List Int) → List Int
+  | [] => []
+  | r :: rs => rs.foldl addRows r
+
+/-- One line of the kymograph from the window of one frame: `reduce(image, axis=1)` (`np.sum`, the default of
+    `to_kymo`) when `half_window > 0`; for `half_window = 0` nothing is reduced, the single row is what
+    `get_image()`'s `squeeze` leaves. -/
+def kymoLine (w : Int) (win : List (List Int)) : List Int :=
+  if w > 0 then sumRows win else win.headD []
+
+/-- `np.swapaxes(image, 0, 1)`: `(time, x) → (x, time)` for `n` positions. -/
+def swapAxes (n : Nat) (lines : List (List Int)) : List (List Int) :=
+  (List.range n).map fun x => lines.map fun l => l.getD x 0
+
+/-- What `to_kymo` hands to `_kymo_from_array`, for one colour channel. -/
+structure Kymo where
+  lineTime : Int
+  exposure : Int
+  start : Int
+  image : List (List Int)
+deriving Repr, DecidableEq
+
+/-- `ImageStack.to_kymo(half_window = w)` for one colour channel.  `raw p` is the stored image of page `p`,
+    `ends` the floors of the processed tether ends (`none`: no tether); `none` = a visible frame is not a page. -/
+def Stack.toKymo (s : Stack) (pages : List Page) (raw : Int → List (List Int))
+    (ends : Option (Int × Int × Int × Int)) (w : Int) : Option (Except Err Kymo) := do
+  let r ← s.ranges pages false false
+  match kymoTimes r with
+  | .error e => some (.error e)
+  | .ok (lt, ex, st) =>
+    match ends with
+    | none => some (.error .value)
+    | some (x1, y1, x2, y2) =>
+      match s.kymoStack x1 y1 x2 y2 w with
+      | .error e => some (.error e)
+      | .ok ks =>
+        let lines := ks.frames.map fun p => kymoLine w (ks.roi.apply (raw p))
+        some (.ok ⟨lt, ex, st, swapAxes ks.roi.width.toNat lines⟩)
+
+/-- The synthetic pages of the harness (`builders_tiff.pixel_value`): sample `ch` of `C` of pixel `(row, col)` of page
+    `p` of `h × w` pixels is `1 + (((p·h + row)·w + col)·C + ch)`. -/
+def encPage (h w C ch : Nat) (p : Int) : List (List Int) :=
+  (List.range h).map fun (r : Nat) => (List.range w).map fun (c : Nat) =>
+    1 + (((p * (h : Int) + (r : Int)) * (w : Int) + (c : Int)) * (C : Int) + (ch : Int))
 
 /-! ### protocol -/
 open Verif.Proto
@@ -572,6 +654,9 @@ def points? (s : String) : Option (List (Pt Float)) :=
       shows up in the final image: `<state> x,y;x,y|x,y;x,y|…`
   `c07.run <h> <w> [starts] [stops] [expStops] <legacy T/F> op…`   run a program on a fresh stack of
       `len starts` pages of `h × w` pixels, answer the final state (or the first error)
+  `c07.kymo <C> <h> <w> [starts] [stops] [expStops] <legacy> op… k,<hw>`   the program as for `c07.run` (pages of the
+      harness encoding `encPage`, `C` samples per pixel), then `to_kymo(half_window = hw)`:
+      `kymo <line time ns> <exposure ns> <start> <image[x][t] of sample 0>|<sample 1>|…` or the error
   `c07.indices a b c n`     `slice(a,b,c).indices(n)` start/stop (self-test of the Python description)
   `c07.page [lens] frame`   `TiffStack.get_frame`: file and page within the file
   `c07.legacy [s…] [e…]`    `_frame_timestamps_from_exposure_timestamps`
@@ -598,6 +683,28 @@ def handle : List String → Option String
       let landed := (mats.zip pts).map fun (m, ps) => ps.map fun r => t.teth.land m r
       some (showState t pages legacy ++ " " ++ "|".intercalate (landed.map fun ps => ";".intercalate (ps.map showPt)))
     | .error e => some e.show
+  | "c07.kymo" :: nch :: h :: w :: starts :: stops :: exps :: legacy :: prog => do
+    let nch ← nat? nch; let h ← nat? h; let w ← nat? w
+    let pages ← pages? starts stops exps
+    let _ ← bool? legacy
+    let hw ← match (prog.getLast?).map (·.splitOn ",") with
+      | some ["k", hw] => int? hw
+      | _ => none
+    let t0 : TStack := ⟨⟨0, pages.length, 1, ⟨0, w, 0, h⟩⟩, Tether.new 0.0 0.0 none⟩
+    match ← runProg pages t0 prog.dropLast with
+    | .error e => some e.show
+    | .ok t =>
+      let ends := t.teth.endsProcessed.map fun (a, b) => (floorInt a.x, floorInt a.y, floorInt b.x, floorInt b.y)
+      let ks ← (List.range nch).mapM fun ch => t.stk.toKymo pages (encPage h w nch ch) ends hw
+      match ks with
+      | [] => none
+      | .error e :: _ => some e.show
+      | .ok k :: _ =>
+        let imgs := ks.map fun r => match r with
+          | .ok k => showListList showInt k.image
+          | .error e => e.show
+        some ("kymo " ++ toString k.lineTime ++ " " ++ toString k.exposure ++ " " ++ toString k.start ++ " "
+          ++ "|".intercalate imgs)
   | ["c07.indices", a, b, c, n] => do
     let a ← optInt? a; let b ← optInt? b; let c ← int? c; let n ← nat? n
     if c = 0 then some "ValueError"
